@@ -58,13 +58,18 @@ def main():
     ctx.replay_file = a.replay
     try:
         mod.run(ctx)
-        # a property decided mainly on a unit-level model may have a whole-simulation part as well
-        simpart = os.path.join(os.path.dirname(os.path.abspath(__file__)), "props", "%s_sim.py" % a.pid.lower())
-        if os.path.exists(simpart) and not getattr(mod, "RUNS_SIM_PART_ITSELF", False):
-            importlib.import_module("props.%s_sim" % a.pid.lower()).run(ctx)
     except Exception as e:  # the machinery itself failed: never a silent pass
         traceback.print_exc()
         ctx.broken.append({"kind": "machinery", "name": type(e).__name__, "detail": str(e)[-2000:]})
+    # a property decided mainly on a unit-level model may have a whole-simulation part as well; it runs even when the
+    # unit-level part broke (it is then the search for a concrete failing input)
+    simpart = os.path.join(os.path.dirname(os.path.abspath(__file__)), "props", "%s_sim.py" % a.pid.lower())
+    if os.path.exists(simpart) and not getattr(mod, "RUNS_SIM_PART_ITSELF", False):
+        try:
+            importlib.import_module("props.%s_sim" % a.pid.lower()).run(ctx)
+        except Exception as e:
+            traceback.print_exc()
+            ctx.broken.append({"kind": "machinery", "name": "sim part: " + type(e).__name__, "detail": str(e)[-2000:]})
     sys.exit(ctx.finish(trusted_extra=getattr(mod, "TRUSTED", ()), explanation=getattr(mod, "EXPLANATION", None)))
 
 
